@@ -18,7 +18,7 @@ import (
 // One transition = replay of the history on a fresh closed system + one environment event + running
 // every task of the real dispatcher to quiescence under the default schedule.
 
-const allFaults = "crash stale linger break rbroken gone lockfail createquota createrate createfail destroyfail listfail hold drain unhold restart"
+const allFaults = "crash stale linger killfail break hang rbroken gone lockfail createquota createrate createfail destroyfail listfail hold drain unhold restart"
 const allSlow = " slow-detach slow-kill slow-list slow-lock slow-unlock slow-cancel slow-create slow-destroy"
 
 func levelAModels(thorough bool) []sysCfg {
@@ -43,6 +43,16 @@ func levelAModels(thorough bool) []sysCfg {
 		// replaced, the replacement hits a quota error and a Locked container is unlocked while a poll
 		// that already listed it as Locked is under way (late answer); then the other instance becomes free
 		{Name: "2c-2i-poll3", MaxCtr: 2, Cap: 2, Types: "A", Prios: "1", Events: "createquota slow-poll-queued", Budget: 2, Depth: 15, PollTicks: 3},
+		// a container put on hold while its crunch-run is alive (SIGTERM "priority=0"), then released by
+		// its user (prio1) while the kill is still going on: a kill attempt that fails (SIGTERM ignored /
+		// process still alive when `crunch-run --kill` returns) must leave the process registered, so the
+		// container is not re-locked and started next to it
+		{Name: "1c-1i-hold", MaxCtr: 1, Cap: 1, Types: "A", Prios: "1", Events: "prio0 prio1 linger killfail", Budget: 1, Depth: 15},
+		// two containers, capacity of one instance: the higher-priority late-comer hits the capacity quota
+		// error and runQueue's at-quota sweep unlocks the lower-priority container whose crunch-run is
+		// already alive (still Locked); sync sends SIGTERM "state=Queued"; the late-comer is cancelled;
+		// with a failed kill attempt the re-queued container must not be re-locked and started again
+		{Name: "2c-1i-requeue", MaxCtr: 2, Cap: 1, Types: "A", Prios: "12", Events: "cancel linger killfail", Budget: 1, Depth: 11},
 	}
 	if thorough {
 		ms = []sysCfg{
@@ -53,6 +63,9 @@ func levelAModels(thorough bool) []sysCfg {
 			{Name: "3c-2i-f0", MaxCtr: 3, Cap: 2, Types: "A", Prios: "12", Events: "cancel", Budget: 0, Depth: 10},
 			{Name: "1c-1i-poll", MaxCtr: 1, Cap: 1, Types: "A", Prios: "1", Events: "wait createquota crash slow-poll-mine slow-poll-queued slow-poll-missing", Budget: 2, Depth: 16},
 			{Name: "2c-2i-poll3", MaxCtr: 2, Cap: 2, Types: "A", Prios: "12", Events: "createquota slow-poll-queued slow-poll-mine", Budget: 2, Depth: 18, PollTicks: 3},
+			{Name: "1c-1i-hold2", MaxCtr: 1, Cap: 1, Types: "A", Prios: "1", Events: "prio0 prio1 cancel linger killfail hang restart slow-kill slow-list", Budget: 2, Depth: 18},
+			{Name: "2c-1i-requeue2", MaxCtr: 2, Cap: 1, Types: "A", Prios: "12", Events: "cancel prio0 prio1 linger killfail", Budget: 2, Depth: 12},
+			{Name: "1c-1i-hold-p3", MaxCtr: 1, Cap: 1, Types: "A", Prios: "1", Events: "prio0 prio1 linger killfail", Budget: 2, Depth: 18, ProbeTicks: 3},
 		}
 	}
 	return ms
